@@ -248,32 +248,74 @@ where
         Ok(p) => p,
         Err(e) => return mk("open publisher", e.to_string()),
     };
-    let mut sent: Vec<T> = vec![];
-    for i in 0..cfg.count {
-        let size = cfg.sizes.as_ref().map_or(cfg.payload, |v| v[i]);
-        let item = if cfg.compressible { T::make_compressible(i as u64, size) } else { T::make(i as u64, size, &mut rng) };
-        match publisher.send(item.clone()).await {
-            Ok(()) => sent.push(item),
-            Err(e) => {
-                return Outcome::Violated {
-                    sig: "send-error".into(),
-                    detail: format!("send() of item {} failed on a healthy connection: {}", i, e),
+    let trace = std::env::var("VERIF_C03_TRACE").is_ok();
+    // the publisher runs as its own task while the subscriber is being drained: with several MB in flight the
+    // subscriber's flow-control window is what lets finish() complete (reading only afterwards would deadlock the harness)
+    let items: Vec<T> = (0..cfg.count)
+        .map(|i| {
+            let size = cfg.sizes.as_ref().map_or(cfg.payload, |v| v[i]);
+            if cfg.compressible { T::make_compressible(i as u64, size) } else { T::make(i as u64, size, &mut rng) }
+        })
+        .collect();
+    let pauses: Vec<bool> = (0..cfg.count).map(|_| cfg.batch.map_or(false, |(_, iv)| iv > 0 && iv <= 50) && rng.pct(20)).collect();
+    let pause_ms = cfg.batch.map_or(0, |b| b.1 + 1);
+    let mut pub_task = tokio::spawn(async move {
+        let mut sent: Vec<T> = vec![];
+        for (i, item) in items.into_iter().enumerate() {
+            if trace {
+                eprintln!("[c03 trace] sending item {}", i);
+            }
+            match publisher.send(item.clone()).await {
+                Ok(()) => sent.push(item),
+                Err(e) => return Err(Outcome::Violated { sig: "send-error".into(), detail: format!("send() of item {} failed on a healthy connection: {}", i, e) }),
+            }
+            if pauses[i] {
+                tokio::time::sleep(Duration::from_millis(pause_ms)).await;
+            }
+        }
+        if trace {
+            eprintln!("[c03 trace] all sends returned; finish()");
+        }
+        if let Err(e) = publisher.finish().await {
+            return Err(Outcome::Violated { sig: "finish-error".into(), detail: format!("finish() failed on a healthy connection: {}", e) });
+        }
+        if trace {
+            eprintln!("[c03 trace] finish() returned");
+        }
+        Ok(sent)
+    });
+    let mut got: Vec<T> = vec![];
+    let mut errors: Vec<String> = vec![];
+    let sent: Vec<T> = loop {
+        tokio::select! {
+            r = &mut pub_task => {
+                match r {
+                    Ok(Ok(sent)) => break sent,
+                    Ok(Err(o)) => return o,
+                    Err(e) => return mk("publisher task", e.to_string()),
+                }
+            }
+            x = subscriber.next(), if errors.len() <= 20 => {
+                match x {
+                    Some(Ok(it)) => {
+                        if it.is_sentinel().is_none() {
+                            got.push(it);
+                        }
+                    }
+                    Some(Err(e)) => errors.push(e.to_string()),
+                    None => {
+                        errors.push("subscriber stream ended".into());
+                        pub_task.abort();
+                        return Outcome::Violated { sig: "subscriber-error/ended".into(), detail: "the subscriber's stream ended while the publisher was still publishing".into() };
+                    }
                 }
             }
         }
-        if cfg.batch.map_or(false, |(_, iv)| iv > 0 && iv <= 50) && rng.pct(20) {
-            tokio::time::sleep(Duration::from_millis(cfg.batch.unwrap().1 + 1)).await;
-        }
-    }
-    if let Err(e) = publisher.finish().await {
-        return Outcome::Violated { sig: "finish-error".into(), detail: format!("finish() failed on a healthy connection: {}", e) };
-    }
+    };
     let finished_at = Instant::now();
     // collect; fences are numbered from `k` on and are all sent after finish() returned
     let fence_base = k;
-    let mut got: Vec<T> = vec![];
     let mut fences_seen = 0u64;
-    let mut errors: Vec<String> = vec![];
     let deadline = Instant::now() + Duration::from_secs(40);
     loop {
         if aux.send(T::sentinel(k)).await.is_err() {
@@ -300,6 +342,9 @@ where
                 }
                 Err(_) => break,
             }
+        }
+        if trace {
+            eprintln!("[c03 trace] fence {}: got {} of {} items, {} fences seen, {} errors", k, got.len(), sent.len(), fences_seen, errors.len());
         }
         let complete = got.len() >= sent.len();
         if fences_seen >= 25 && (complete || finished_at.elapsed() > Duration::from_secs(3)) {
@@ -778,7 +823,11 @@ fn configs(tier: &str, rng: &mut Rng) -> Vec<Cfg> {
 pub fn run(rep: &mut StageReport, tier: &str, seed: u64) {
     let rt = runtime(8);
     let mut rng = Rng::new(seed ^ 0xC03);
-    let cfgs = configs(tier, &mut rng);
+    let mut cfgs = configs(tier, &mut rng);
+    if let Ok(only) = std::env::var("VERIF_C03_ONLY") {
+        // debugging aid: run a single configuration by id
+        cfgs.retain(|c| c.id.to_string() == only);
+    }
     let certs = match gen_certs() {
         Ok(c) => c,
         Err(e) => {
@@ -870,7 +919,12 @@ pub fn run(rep: &mut StageReport, tier: &str, seed: u64) {
                 let replay = if already < 2 { write_replay("C03", &sig, cfg.id, json!({"property": "C03", "configuration": cfg.json(), "detail": detail, "seed": seed})) } else { String::new() };
                 rep.violation(Violation { signature, detail: format!("{} — configuration {}", detail, cfg.json()), replay });
             }
-            Outcome::Inconclusive(why) => rep.inconclusive(&why),
+            Outcome::Inconclusive(why) => {
+                if why.starts_with("watchdog") {
+                    eprintln!("C03 watchdog fired for configuration id={} {}", cfg.id, cfg.json());
+                }
+                rep.inconclusive(&why)
+            }
         }
     }
     for p in repo_panics_since(mark) {
